@@ -16,7 +16,7 @@ treeguard()
 from hio.base import doing  # noqa: E402
 
 T_DEFAULT = 1.0
-MAXCYCLES = 40
+MAXCYCLES = 150
 
 
 class Horizon(Exception):
@@ -508,9 +508,22 @@ def build(w, shape, kinds=None, parent=""):
     return out
 
 
-def config(w, ch, shape):
-    """scheduler configuration: every option is a choice with a default"""
+SWEEP_TOCKS = [1.0, 0.25, 0.1, 0.03125, 0.3]
+SWEEP_STARTS = [0.0, 2.5, 0.2, 0.7]
+SWEEP_LIMITS = [None, 2.0, 2.5, 0.3, 0.5, 1.0, 3.0, 0.7]   # absolute seconds when "abs" below
+
+
+def config(w, ch, shape, sweep=False):
+    """scheduler configuration: every option is a choice with a default.
+    sweep=True: the full product of a larger grid is enumerated (free choices, cost 0)"""
     m = w.mode
+    if sweep:
+        T = ch.pick(SWEEP_TOCKS, "cfg:tock", cost=0)
+        start = ch.pick(SWEEP_STARTS, "cfg:start", cost=0)
+        lims = [x for x in SWEEP_LIMITS if x is not None] if shape_has_always(shape) else SWEEP_LIMITS
+        lim = ch.pick(lims, "cfg:limit", cost=0)
+        mult = ch.pick([True, False], "cfg:limit-in-tocks", cost=0)
+        return T, start, (lim * T if (lim is not None and mult) else lim)
     if m.cfg and w.table is None:
         T = ch.pick([1.0, 0.25, 0.1], "cfg:tock")
         start = ch.pick([0.0, 2.5], "cfg:start")
@@ -528,7 +541,7 @@ def run(job, ch, mode=None, table=None, cfg=None, kinds=None, runner=None):
     w = World(job, ch, mode=mode, table=table)
     shape = job[1]
     if cfg is None:
-        cfg = config(w, ch, shape)
+        cfg = config(w, ch, shape, sweep=(len(job) > 2 and "sweep" in job[2:]))
     T, start, lim = cfg
     w.T, w.start, w.limit = T, start, lim
     if kinds is None:
